@@ -807,6 +807,10 @@ func (o *procOracle) sotwReq(f []string, line string) {
 		return
 	}
 	nonce := o.pr.p.resolve(t, f[3]) // what the client sends: resolved from the client's own view, before the op
+	stat("nonce-kind." + f[3])
+	if o.pr.p.grpc {
+		stat("class.grpc-request")
+	}
 	e := o.expectSotw(t, names, nonce, errMsgOf(f[4]))
 	if o.pr.apply(f) == "crash" {
 		o.fail("never-crashes", line)
@@ -939,4 +943,5 @@ func oracleProc(stream, in, outp string) {
 		}
 	}
 	flush()
+	dumpStats(outp)
 }
